@@ -8,6 +8,7 @@ printed as text when they are valid keys, else as `#<hex>`.
 
   reset                              forget all stores and the sha table
   create <fs|mem|map> <rr>           one whole Create call                 -> ok <key> | err <code> | panic | stuck
+  hashrd <rr>                        hashutil.HashReader                   -> ok <key> | err <code>
   spawn fs <rr>                      start a Create, run it to its first Read -> id=<i> ret=- objs=[..] tmp=[..]
   step fs <i>                        deliver creator i's next read result, run it to its next Read or return
                                                                            -> ret=<-|ok:key|err:code|panic> objs=[..] tmp=[..]
@@ -144,6 +145,11 @@ def step (d0 : DS) (line : String) : DS × String :=
       let (m', r) := m.create sha input
       (setMem d store m', showCreate r)
     | _, _ => (d, "bad-op")
+  | ["hashrd", rr] =>
+    -- hashutil.HashReader: the digest of a complete input, the input's error otherwise
+    match parseRR rr with
+    | some input => (d, showCreate (Mem.empty.create sha input).2)
+    | none => (d, "bad-op")
   | ["spawn", "fs", rr] =>
     match parseRR rr with
     | some input =>
